@@ -439,7 +439,9 @@ def setup():
     rc, out = sh("make -f Makefile.coq -j16", cwd=COQ, timeout=3000)
     if rc != 0:
         log("coq build failed:\n" + out[-3000:]); return 1
-    cmds = sorted(os.listdir(os.path.join(GO, "cmd")))
+    # only the commands some registered check uses (work in progress under go/cmd must not break setup)
+    cmds = sorted({g["bin"] for g in P.GENS.values()} | {h["bin"] for s in P.PROPS.values() for h in s.get("harness", [])}
+                  | {b for s in P.PROPS.values() for b in s.get("extra_bins", [])})
     ok, msg = go_build(cmds)
     if not ok:
         log(msg); return 1
